@@ -304,14 +304,14 @@ def run_hand(recipe, r, tmp):
             "links": sorted(links, key=lambda x: json.dumps(x, sort_keys=True)),
             "attackers": sorted([i, n, sorted([a, list(st)] for (a, st) in eps)] for (i, n, eps) in recipe["attackers"])}
     order = [i for (i, _) in recipe["assets"]]
-    shape = ("id-0-not-first" if 0 in order and order[0] != 0 else "id-0-first") + \
-            (":shorthand" if any(isinstance(e, str) for (_, e) in recipe["assets"]) else "")
+    shape0 = "id-0-not-first" if 0 in order and order[0] != 0 else "id-0-first"
+    shape = shape0 + (":shorthand" if any(isinstance(e, str) for (_, e) in recipe["assets"]) else "")
     try:
         m1 = Model.load_from_file(path, lcf)
         v1 = L.full_view(m1, base["lang"])
     except Exception as e:
         r.check("C07.handwritten", False, FN_LOAD, "assets listed as %s (.%s): loading raised %s: %s" % (order, fmt, L.exc_name(e), str(e)[:100]),
-                "%s:raised:%s" % (shape, L.exc_name(e)))
+                "%s:raised" % shape0)
         return want
     sub = CaseResult()
     ok = compare_views(sub, want, v1, "assets listed as %s, .%s" % (order, fmt))
